@@ -296,6 +296,9 @@ class GeoIndex:
         ])
 
         # Return the distances in kilometers
+        if self.metric == "haversine":
+            # The haversine metric yields the arc on the unit sphere
+            distances *= earth_radius
         distances /= 1000.
 
         if self.shuffler is None:
